@@ -140,13 +140,30 @@ class LF:
     def join(self, other, on=None, how="inner", *, left_on=None, right_on=None, suffix="_right", validate="m:m", coalesce=None, **kw):
         new = dict(self.cols)
         for name, tok in other.cols.items():
+            if on is not None:
+                break
             if name in new:
-                if how == "cross" or coalesce is False:
-                    raise PolarsError(f"DuplicateError: column {name!r} exists on both sides of the join (polars would rename it to {name}{suffix})")
+                # polars keeps both columns and appends the suffix to the right one
+                name = name + suffix
+                if name in new:
+                    raise PolarsError(f"DuplicateError: column {name!r} already exists after suffixing the right join column")
             new[name] = tok
+        if on is not None:
+            if not isinstance(on, str) or on not in self.cols or on not in other.cols:
+                raise Unsupported("join(on=...) in the frame model")
+            new = dict(self.cols)
+            for name, tok in other.cols.items():
+                if name == on:
+                    continue  # the key column is coalesced
+                if name in new:
+                    name = name + suffix
+                    if name in new:
+                        raise PolarsError(f"DuplicateError: column {name!r} already exists after suffixing the right join column")
+                new[name] = tok
+            return LF(new, self.hist + (("join_on", how, on, other.hist),))
         lo = tuple(_resolve(e.node, self.cols) for _, e in self._exprs_noname(left_on or []))
         ro = tuple(_resolve(e.node, other.cols) for _, e in self._exprs_noname(right_on or []))
-        return LF(new, self.hist + (("join", how, lo, ro, validate, coalesce, other.hist, plmodel._node_of(on)),))
+        return LF(new, self.hist + (("join", how, lo, ro, validate, coalesce, other.hist),))
 
     def join_where(self, other, *preds, **kw):
         new = dict(self.cols)
